@@ -57,7 +57,8 @@ class Garbled(Exception):
 class RealScenario:
     """node <-> scripted peer over 127.0.0.1"""
 
-    def __init__(self, role, rcvbuf=None, deadline=60.0):
+    def __init__(self, role, rcvbuf=None, deadline=60.0, local=None):
+        self.local = local or N.LOCAL
         self.role = role
         self.deadline = deadline
         self.rcvbuf = rcvbuf
@@ -72,7 +73,7 @@ class RealScenario:
         self.fds_before = open_fds()
 
     def config(self, port):
-        L, P = N.LOCAL, N.PEER
+        L, P = self.local, N.PEER
         return {"MODE": "CLIENT" if self.role == "client" else "SERVER", "TRANSPORT_TYPE": "TCP",
                 "APPLICATIONS": [{"vendor_id": b"\x00\x00\x28\xaf", "app_id": N.u32(16777251)}],
                 "LOCAL_NODE_HOSTNAME": L[0], "LOCAL_NODE_REALM": L[1], "LOCAL_NODE_IP_ADDRESS": "127.0.0.1",
@@ -545,14 +546,15 @@ def base_answers_case(seed, role="client"):
     """C07 on the real loopback: bursts of DWR / CER / DPR with boundary identifiers, answers must pair one to one, in order,
     with the request's identifiers, local origin and a Result-Code; then the same object is started again and the exchange repeated."""
     rng = random.Random(seed)
-    sc = RealScenario(role)
+    sc = sc1 = RealScenario(role)
     info = {"kind": "base", "seed": seed, "role": role}
     BOUND = [0, 1, 2 ** 31, 2 ** 32 - 1, 2 ** 31 - 1, 0x01000000, 255, 256]
 
     def ident():
         return rng.choice(BOUND) if rng.random() < 0.5 else rng.randrange(2 ** 32)
 
-    def exchange(tag):
+    def exchange(tag, sc=None):
+        sc = sc or sc1
         reqs = []
         for _ in range(rng.randrange(3, 25)):
             kind = rng.choice(["DWR", "DWR", "DWR", "CER", "APP", "STRAY-DWA"])
@@ -587,7 +589,7 @@ def base_answers_case(seed, role="client"):
             if m.flags & 0x80:
                 return "%s: %s has the R flag set" % (tag, N.name_of(m))
             codes = {a.code: a.value for a in m.avps}
-            if codes.get(264) != N.LOCAL[0].encode() or codes.get(296) != N.LOCAL[1].encode() or 268 not in codes:
+            if codes.get(264) != sc.local[0].encode() or codes.get(296) != sc.local[1].encode() or 268 not in codes:
                 return "%s: %s carries origin %r/%r, result %r" % (tag, N.name_of(m), codes.get(264), codes.get(296), codes.get(268))
         info["answers_checked"] = info.get("answers_checked", 0) + len(want)
         return None
@@ -652,6 +654,17 @@ def base_answers_case(seed, role="client"):
             return info
         sc.wait(lambda: node.get_current_state() == "Closed", "Closed after second DPR")
         sc.abort()
+        # a second node object with another identity in the same process: its answers carry *its* identity
+        sc2 = RealScenario(role, local=("second.node.example", "second.example"))
+        try:
+            sc2.open()
+            bad = exchange("second node object", sc2)
+            if bad:
+                info.update(result="violation", key="real-loopback-base-answers-differ", detail=bad)
+                return info
+            sc2.wait(lambda: sc2.node.get_current_state() == "Closed", "second node Closed after DPR")
+        finally:
+            sc2.abort()
         info.update(result="ok")
         return info
     except Timeout as ex:
